@@ -24,7 +24,10 @@ from concurrent.futures import ProcessPoolExecutor
 from ..check import ALL, analyse
 
 
-def _variants(prop, renamed_mutants=False):
+SHAPE_KINDS = ("flip", "invert", "kwargs", "aug", "noise", "annot", "inlinetemp", "extracttemp", "comp2loop", "swapindep", "splitunpack", "imports", "mergeif", "splitif", "elsewrap", "unelse", "ternary2if", "demorgan", "unguard")
+
+
+def _variants(prop, renamed_mutants=False, reshaped_mutants=False):
     mod = importlib.import_module(f"sa.props.{prop}")
     out = []
     for m in getattr(mod, "MUTANTS", []):
@@ -67,8 +70,13 @@ def _variants(prop, renamed_mutants=False):
                 out.append(("twin", dict(name=f"refactoring {rid}", patch=pth, known_limit=meta.get("known_limit", {}).get(prop))))
     # every driver must give the clean verdict on the alpha-renamed package, and still see every mutant there
     out.append(("twin", dict(name="alpha-renamed locals (whole package)", rename=True, edits=[])))
-    for kind in ("flip", "invert", "kwargs", "aug", "noise", "annot", "inlinetemp", "extracttemp", "comp2loop", "swapindep", "splitunpack"):
+    for kind in SHAPE_KINDS:
         out.append(("twin", dict(name=f"shape edit `{kind}` (whole package)", reshape=kind, edits=[])))
+    if reshaped_mutants:
+        # a normal form must not open a hole: every mutant is still reported when the whole package (mutant included) is rewritten
+        for k_, m in [x for x in out if x[0] == "mutant" and not x[1].get("rename")]:
+            for kind in SHAPE_KINDS:
+                out.append(("mutant", dict(m, name=m["name"] + f" [on the `{kind}` package]", reshape=kind)))
     if renamed_mutants:
         for m in getattr(mod, "MUTANTS", []):
             out.append(("mutant", dict(m, name=m["name"] + " [on the alpha-renamed package]", rename=True)))
@@ -199,13 +207,15 @@ def run_one(task):
     return (prop, kind, v["name"], "MISSED", "checker stayed silent")
 
 
-def selftest(props, root="/repo", jobs=16, renamed_mutants=False):
+def selftest(props, root="/repo", jobs=16, renamed_mutants=False, reshaped_mutants=False):
     tasks = []
     for p in props:
-        for kind, v in _variants(p, renamed_mutants):
+        for kind, v in _variants(p, renamed_mutants, reshaped_mutants):
             tasks.append((p, kind, v, root))
     if not tasks:
         return []
+    # variants of one whole-package rewrite run next to each other: the per-process module cache (keyed by content) is then hit
+    tasks.sort(key=lambda t: (t[2].get("reshape") or "", bool(t[2].get("rename"))))
     if jobs <= 1 or len(tasks) == 1:
         return [run_one(t) for t in tasks]
     with ProcessPoolExecutor(max_workers=min(jobs, len(tasks))) as ex:
@@ -219,9 +229,10 @@ def main(argv=None):
     ap.add_argument("--jobs", type=int, default=16)
     ap.add_argument("-v", action="store_true")
     ap.add_argument("--renamed", action="store_true", help="additionally run every mutant on the alpha-renamed package")
+    ap.add_argument("--reshaped", action="store_true", help="additionally run every mutant on every whole-package shape twin")
     a = ap.parse_args(argv)
     props = a.props or ALL
-    res = selftest(props, a.root, a.jobs, a.renamed)
+    res = selftest(props, a.root, a.jobs, a.renamed, a.reshaped)
     bad = 0
     for prop, kind, name, status, detail in res:
         good = status in ("ok", "skipped")
